@@ -6,8 +6,8 @@ import core, gen
 from core import sx, enc_chord, py_res, show_ints
 
 ID = 'C02'
-LEAN_MODULES = ['MV.Props.C02']
-LEAN_HELPERS = ['MV.Lemmas.Ext', 'MV.Lemmas.Scale', 'MV.Props.C01', 'MV.Model.Pitch', 'MV.Model.Basic']
+LEAN_MODULES = ['MV.Props.C02', 'MV.Props.C02b']
+LEAN_HELPERS = ['MV.Lemmas.Pcs', 'MV.Lemmas.Shift', 'MV.Props.C01b', 'MV.Lemmas.Ext', 'MV.Lemmas.Scale', 'MV.Props.C01', 'MV.Model.Pitch', 'MV.Model.Basic']
 DRIVERS = ['C01']
 GEN = ['Tables', 'Library']
 RULE = ('extension texts generated in random written order from the live modifier dictionaries (valid combinations '
